@@ -40,7 +40,8 @@ def gen_cases(rng, tier):
         ops = []
         for _ in range(rng.randint(3, 12)):
             k = rng.choice(['add', 'sub', 'iadd', 'axpy', 'scale', 'set', 'copy', 'empty', 'dot', 'vdot',
-                            'norm2', 'get', 'max', 'setwfn_zero', 'setwfn_ones', 'setwfn_data'])
+                            'norm2', 'get', 'max', 'setwfn_zero', 'setwfn_ones', 'setwfn_data', 'setwfn_shared',
+                            'setwfn_shared'])
             i, j, t = rng.randrange(NPOOL), rng.randrange(NPOOL), rng.randrange(NPOOL)
             if k in ('add', 'sub'):
                 ops.append([k, i, j, t])
@@ -63,6 +64,12 @@ def gen_cases(rng, tier):
                 ops.append(['setwfn_zero', i])
             elif k == 'setwfn_ones':
                 ops.append(['setwfn_ones', i])
+            elif k == 'setwfn_shared':
+                # two wavefunctions set from the SAME dict of arrays: bulk assignment must be by value
+                ops.append(['setwfn_shared', i, (i + 1 + rng.randrange(NPOOL - 1)) % NPOOL,
+                            fqeio.random_state(rng, norb, keys, density=0.6, amp=3)])
+                if rng.random() < 0.7:
+                    ops.append(['axpy', i, _c(rng), rng.randrange(NPOOL)])
             else:
                 ops.append(['setwfn_data', i, fqeio.random_state(rng, norb, keys, density=0.6, amp=3)])
         cases.append({'kind': 'hist', 'norb': norb, 'mode': mode, 'n': nn, 'sz': sz, 'pool': pool, 'ops': ops})
@@ -104,6 +111,7 @@ def run_impl(case, mode):
             raised = type(e).__name__
         return {'raised': raised, 'unchanged': fqeio.read_state(w1) == b1 and fqeio.read_state(w2) == b2}
     norb = case['norb']
+    fqeio.reset_sources()
     pool = [fqeio.make_wfn(norb, case['mode'], case['n'], case['sz'], v) for v in case['pool']]
     obs = []
     for op in case['ops']:
@@ -149,6 +157,8 @@ def run_impl(case, mode):
             pool[op[1]].set_wfn(strategy='ones')
         elif k == 'setwfn_data':
             fqeio.set_state(pool[op[1]], op[2])
+        elif k == 'setwfn_shared':
+            fqeio.set_state(pool[op[1]], op[3], also=[pool[op[2]]])
     # normalisation on copies (not exact: compared through norm)
     norms = []
     for w in pool:
@@ -159,7 +169,7 @@ def run_impl(case, mode):
             norms.append([float(n0), float(c.norm())])
         else:
             norms.append([0.0, 0.0])
-    return {'obs': obs, 'final': [fqeio.read_state(w) for w in pool], 'norms': norms}
+    return {'obs': obs, 'final': [fqeio.read_state(w) for w in pool], 'norms': norms, 'alias': fqeio.modified_sources()}
 
 
 # ------------------------------------------------------------------ model
@@ -203,6 +213,11 @@ def expected(model, case):
             mops.append(['empty', op[1], op[1]])
             for a, b, re, im in op[2]:
                 mops.append(['set', op[1], a, b, re, im])
+        elif k == 'setwfn_shared':
+            for tgt in (op[1], op[2]):
+                mops.append(['empty', tgt, tgt])
+                for a, b, re, im in op[3]:
+                    mops.append(['set', tgt, a, b, re, im])
     toks.append(len(mops))
     for m in mops:
         toks += m
@@ -240,7 +255,7 @@ def compare(case, got, exp, mode):
         if not got['unchanged']:
             bad.append('rejected %s modified an operand' % case['op'])
         return bad
-    bad = []
+    bad = list(got.get('alias', []))
     if len(got['obs']) != len(exp['obs']):
         return ['number of observations differs']
     obs_ops = [op for op in case['ops'] if op[0] in ('get', 'dot', 'vdot', 'norm2', 'max')]
